@@ -113,3 +113,73 @@ def jobs_for(nr, nt, nsc_f, nsc_c):
             j.rules, j.hashes = rules, hashes
             jobs.append(j)
     return jobs
+
+
+# ---- cubic exactness through LOCAL polynomials (few variables): one symbolic cubic in the signed distances from the fine node ------
+def local_poly_jobs(nr, nt, nsc_f, nsc_c, nodes=None):
+    """For a fine node (a, b): coarse data = p(d_theta, d_r) with p a polynomial with symbolic coefficients in the signed distances
+    (sums of the symbolic spacings) from the fine node; the interpolated value must be p(0, 0) = c00.  Degree: cubic in a direction
+    that uses the 4-point rule, linear where the code uses the 2-point rule (rows 1 and nr-2 in r).  Coarse nodes outside the
+    4 x 4 (or smaller) stencil get arbitrary values."""
+    rules, hashes = Rules("C09"), {}
+    c, NF, NC, ncr, nct = fmg_unit(rules, hashes, nr, nt, nsc_f, nsc_c)
+    jobs = []
+    bound = "grid shape pair fixed (fine %dx%d split %d, coarse split %d); spacings and polynomial coefficients symbolic reals" % (nr, nt, nsc_f, nsc_c)
+    for a in range(nr):
+        for b in range(nt):
+            if a % 2 == 0 and b % 2 == 0:
+                continue
+            if nodes is not None and (a, b) not in nodes:
+                continue
+            deg_t = 3 if b % 2 == 1 else 0
+            if a % 2 == 0:
+                deg_r = 0
+            elif a == 1 or a == nr - 2:
+                deg_r = 1
+            else:
+                deg_r = 3
+            h = ["void harness(void) {", "  setup();"]
+            coef = {}
+            for m in range(deg_t + 1):
+                for n in range(deg_r + 1):
+                    coef[(m, n)] = "c%d%d" % (m, n)
+                    h.append("  const real_t c%d%d = nondet_real();" % (m, n))
+            h += ["  x[%d] = nondet_real();" % k for k in range(NC)]
+            # signed distances from the fine node to coarse lines, as sums of fine spacings
+            def dist_t(jc):      # coarse angle index jc (may be out of 0..nct-1: periodic), fine index 2*jc
+                tgt = 2 * jc
+                if tgt >= b:
+                    return " + ".join("fineGrid.angularSpacing(%d)" % q for q in range(b, tgt)) or "0"
+                return "0 - (" + " + ".join("fineGrid.angularSpacing(%d)" % q for q in range(tgt, b)) + ")"
+            def dist_r(ic):
+                tgt = 2 * ic
+                if tgt >= a:
+                    return " + ".join("fineGrid.radialSpacing(%d)" % q for q in range(a, tgt)) or "0"
+                return "0 - (" + " + ".join("fineGrid.radialSpacing(%d)" % q for q in range(tgt, a)) + ")"
+            jcs = [b // 2] if b % 2 == 0 else [b // 2 - 1, b // 2, b // 2 + 1, b // 2 + 2]
+            if a % 2 == 0:
+                ics = [a // 2]
+            elif deg_r == 1:
+                ics = [a // 2, a // 2 + 1]
+            else:
+                ics = [a // 2 - 1, a // 2, a // 2 + 1, a // 2 + 2]
+            for ic in ics:
+                if not (0 <= ic < ncr):
+                    raise ExtractError("radial stencil of (%d,%d) leaves the grid" % (a, b))
+                for jc in jcs:
+                    dt, dr = dist_t(jc), dist_r(ic)
+                    terms = []
+                    for (m, n), cn in coef.items():
+                        terms.append(" * ".join([cn] + ["DT"] * m + ["DR"] * n))
+                    h.append("  { const real_t DT = %s, DR = %s; x[%d] = %s; }" % (dt, dr, fidx(ncr, nct, nsc_c, ic, jc % nct), " + ".join(terms)))
+            h.append("  Interpolation_applyFMGInterpolation(fromLevel, toLevel, result, x);")
+            h.append("  __CPROVER_assert(result[%d] == c00, \"OBL:fmg_reproduces_local_polynomials(degree %d in theta, %d in r)[fine=(%d,%d)]\");" % (fidx(nr, nt, nsc_f, a, b), deg_t, deg_r, a, b))
+            h.append("  __CPROVER_assert(c00 != c00, \"COVER:reached_end\");")
+            h.append("}")
+            j = Job("C09.fmg.local[fine=(%d,%d),nr=%d,nt=%d,nscF=%d,nscC=%d]" % (a, b, nr, nt, nsc_f, nsc_c), "\n".join(c + h), "R", unwind=max(nr, nt) + 2, timeout=900, bounded=bound,
+                    functions=["Interpolation::applyFMGInterpolation", "FINE_NODE_FMG_INTERPOLATION"], covers={"COVER:reached_end"},
+                    split=r"^OBL:fmg_reproduces|^COVER:", split_chunk=1, split_timeout=400, skip_batch=True,
+                    extra=["--max-field-sensitivity-array-size", "4096"])
+            j.rules, j.hashes = rules, hashes
+            jobs.append(j)
+    return jobs
